@@ -340,7 +340,7 @@ def install_more(I):
         I.memcpy(s_ptr(s) + pos, tb, tail); s_setlen(s, ln - n); I.objs[tb >> OBJ_SHIFT].alive = False
     M[S + '8_M_eraseEmm'] = erase
     def resize(I_, s, n, c):
-        n = I.concretize(n, 'resize n'); ln = s_len(s)
+        n = I.decide_value(n, 'resize n', cap=512) if isinstance(n, Sym) else n; ln = s_len(s)
         if n > ln:
             s_reserve(s, n); p = s_ptr(s)
             I.memset(p + ln, c, n - ln)
